@@ -292,3 +292,47 @@ Example asm_example :
   = [([], None, Some true, Some false); ([], None, Some false, Some true);
      ([EConnect], None, None, None); ([], None, Some true, Some false); ([ERead 77], None, None, None)].
 Proof. vm_compute. reflexivity. Qed.
+
+(* ---- blocking wrappers ------------------------------------------------------------------------- *)
+From TV Require Import Gen.C14_Wrappers Proofs.C14_Wrappers.
+
+(* every blocking entry point (handshakeClient*, handshakeServer, read, write, close,
+   send_heartbeat_request, MessageSocket.*Blocking) only drains the generator of its asynchronous
+   counterpart and hands it EVERY one of its parameters, each to the parameter of the same name
+   (table extracted from the ast of /repo on every run) *)
+Theorem blocking_wrappers_forward_every_parameter : forallb wrapper_ok wrappers = true.
+Proof. exact wrappers_forward. Qed.
+
+(* ---- one read()/poll call ------------------------------------------------------------------------ *)
+From TV Require Import Model.C14_ReadLoop Proofs.C14_ReadLoop.
+
+(* what a call returns plus what stays buffered is what was buffered plus the data of the messages
+   it consumed (nothing lost, duplicated or reordered), tickets are counted once, a suspended
+   call has consumed everything that was sent *)
+Theorem read_call_conserves :
+  forall mx mn ms t st,
+  let '(r, st', ms') := read_loop mx mn t st ms in
+  exists consumed, ms = consumed ++ ms' /\
+    delivered r ++ r_buf st' = r_buf st ++ data_of consumed /\
+    r_tickets st' = r_tickets st + n_tickets consumed /\
+    (r = RPending -> ms' = []).
+Proof. exact read_loop_conserves. Qed.
+
+(* a poll (min <= 0, empty buffer) handles exactly ONE message -- whatever else has already
+   arrived -- unless that message is a KeyUpdate, which is transparent to the call *)
+Theorem poll_handles_exactly_one_message :
+  forall mx mn m ms st,
+  mn <= 0 -> r_buf st = [] -> r_closed st = false -> m <> MKeyUpdate ->
+  read_call mx mn st (m :: ms) =
+  (fst (finish mx (fst (handle m st))), snd (finish mx (fst (handle m st))), ms).
+Proof. exact poll_one_message. Qed.
+
+Theorem keyupdate_is_transparent_to_a_call :
+  forall mx mn ms st, loop_cond mn true st = true ->
+  read_call mx mn st (MKeyUpdate :: ms) = read_call mx mn st ms.
+Proof. exact keyupdate_transparent. Qed.
+
+Example poll_example :
+  read_stages [([MTicket; MTicket; MData [1; 2; 3]], [(None, 0); (None, 0); (None, 0); (None, 0)])] r_init []
+  = [(RBytes [], 1, false); (RBytes [], 2, false); (RBytes [1; 2; 3], 2, false); (RPending, 2, false)].
+Proof. vm_compute. reflexivity. Qed.
